@@ -346,3 +346,16 @@ Proof.
   destruct ms; [discriminate|]. destruct ml; [discriminate|]. apply N.eqb_eq in H1. subst fr. subst pc.
   unfold c18_oracle. rewrite N.leb_refl. reflexivity.
 Qed.
+
+(* a forwarded transaction never installs a revision on the follower, whatever the leader's endpoint does *)
+Lemma forward_never_sets : forall k l, (k = ETxnCreate \/ k = ETxnDelete \/ k = ETxnUpdate \/ k = ETxnCompact \/ k = ETxnInvalid) ->
+  f_set (roles_effects k Follower true l) = None /\ f_backend (roles_effects k Follower true l) = BNone.
+Proof. intros k l [->|[->|[->|[->| ->]]]]; split; reflexivity. Qed.
+
+Lemma c18_forward_sound : forall w r sets h1 h2 c,
+  c18_check (ForwardCase w r sets h1 h2 c) = true -> c18_oracle (ForwardCase w r sets h1 h2 c) = None.
+Proof.
+  intros w r sets h1 h2 c H. unfold c18_check, forward_model in H.
+  repeat (apply andb_true_iff in H; destruct H as [H ?]). apply list_eqb_N_eq in H. subst sets.
+  apply N.eqb_eq in H2, H1. subst h1 h2 c. unfold c18_oracle. cbn [forallb]. rewrite N.eqb_refl, N.leb_refl. reflexivity.
+Qed.
